@@ -196,14 +196,105 @@ def run(repo, res, tier):
         for s in bad_def:
             res.add(Finding("D2b", n.mod.rel, fname, norm(s), "global defaults modified on the show() path", s.lineno))
     extra = {}
-    try:
-        import frame_rules
-        extra = frame_rules.c19_d3(repo, res) or {}
-    except ImportError:
-        res.notes.append("D3 (FRAME) not available yet")
+    import origin_rules
+    origin_rules.display_mutations(repo, res, rule="D2c")
+    d3(repo, res)
     res.assumptions += [f"triaged lazy initialisation (not traversed): {k} - {v}" for k, v in LAZY_INIT.items()]
     res.assumptions += [f"triaged cache {c}.{p}*: {v}" for (c, p), v in CACHES.items()]
     return extra
+
+
+def d3(repo, res):
+    """placement: rotate local model vertices by the object's orientation, then add its position; the unit factor multiplies
+    the sum; a placed model is never placed again (D3b)"""
+    import frame_rules
+    from frame_rules import FD, run_fn, Rot, Pt, Vec, Unknown, Const, Seq
+    U = "magpylib._src.display.traces_utility"
+    rel = "magpylib/_src/display/traces_utility.py"
+    summ = {"get_vertices_from_model": lambda d, a, k, n: Seq([Vec("model"), Unknown("coordsargs"), Unknown("useargs")], "py")}
+    params = dict(model_kwargs=Unknown("model"), model_args=Const(None), orientation=Rot("model", "G"), position=Pt("G", "G"), coordsargs=Const(None),
+                  scale=Unknown("scale"), return_model_args=Const(False), return_coordsargs=Const(False), length_factor=Unknown("lf"))
+    out, dom, it, node, mod = run_fn(U, "place_and_orient_model3d", params, summaries=summ)
+    res.evaluations += len(dom.judged)
+    for kind, fn, nd, msg in dom.flist:
+        res.add(Finding(f"D3:{kind}", rel, "place_and_orient_model3d", nd, msg, getattr(nd, "lineno", None)))
+    kinds = [k for k, _ in dom.judged.values()]
+    ok = not dom.flist and kinds.count("apply") >= 1 and kinds.count("addsub") >= 1
+    res.ob("D3:place_and_orient_model3d: R.apply(vec_local)*scale + pt_G", ok, {"rule": "D3", "judged_sites": sorted(t for _, t in dom.judged.values())})
+    if not ok and not dom.flist:
+        from common import AnalysisError
+        raise AnalysisError(f"D3: placement sites not judged: {kinds}; skipped={getattr(it, 'skipped', [])[:3]}")
+    # unit factor: must multiply the sum (vertices and position alike) - def-use on the expression that adds `position`
+    adds = [n for n in ast.walk(node) if isinstance(n, ast.BinOp) and isinstance(n.op, ast.Add) and "position" in ast.unparse(n.right) + ast.unparse(n.left)]
+    for a in adds:
+        lf_inside = any(isinstance(x, ast.Name) and x.id == "length_factor" for x in ast.walk(a))
+        res.ob(f"D3:unit-factor:{norm(a)}", not lf_inside, {"rule": "D3", "sum": norm(a), "length_factor_inside_sum": lf_inside})
+        if lf_inside:
+            res.add(Finding("D3:unit", rel, "place_and_orient_model3d", a, "the length-unit factor is applied to one operand of `vertices + position` only; "
+                            "it must scale the placed coordinates as a whole", a.lineno))
+    used_lf = any(isinstance(x, ast.Name) and x.id == "length_factor" and isinstance(x.ctx, ast.Load) for x in ast.walk(node)
+                  if not isinstance(x, ast.arg))
+    lf_mult = [n for n in ast.walk(node) if isinstance(n, ast.BinOp) and isinstance(n.op, ast.Mult) and "length_factor" in ast.unparse(n.right) + ast.unparse(n.left)]
+    res.ob("D3:unit-factor-applied", bool(lf_mult), {"rule": "D3", "multiplications_by_length_factor": [norm(x) for x in lf_mult]})
+    if not lf_mult:
+        res.add(Finding("D3:unit", rel, "place_and_orient_model3d", "length_factor unused", "coordinates are not converted to the announced length unit"))
+    # ---- D3b: a placed model must not be placed again
+    from flow import BaseClient, function_exits
+    n_sites = 0
+    for m, qn, fn, cl in repo.all_functions():
+        if not m.name.startswith("magpylib._src.display"):
+            continue
+        calls = [c for c in ast.walk(fn) if isinstance(c, ast.Call) and getattr(c.func, "id", "") == "place_and_orient_model3d"
+                 and any(k.arg in ("orientation", "position") for k in c.keywords)]
+        if not calls:
+            continue
+        n_sites += len(calls)
+        hits = []
+
+        class PC(BaseClient):
+            def call_may_raise(self, call):
+                return False
+
+            def transfer(self, s, S):
+                out = set()
+                for w in S:
+                    w = set(w)
+                    for c in ast.walk(s):
+                        if isinstance(c, ast.Call) and getattr(c.func, "id", "") == "place_and_orient_model3d" and any(k.arg in ("orientation", "position") for k in c.keywords):
+                            a0 = c.args[0] if c.args else next((k.value for k in c.keywords if k.arg == "model_kwargs"), None)
+                            if isinstance(a0, ast.Name) and ("PLACED", a0.id) in w:
+                                hits.append((s, a0.id))
+                    if isinstance(s, ast.Assign):
+                        v = s.value
+                        placed = isinstance(v, ast.Call) and getattr(v.func, "id", "") == "place_and_orient_model3d" and any(k.arg in ("orientation", "position") for k in v.keywords)
+                        for t in s.targets:
+                            for x in ast.walk(t):
+                                if isinstance(x, ast.Name):
+                                    (w.add if placed else w.discard)(("PLACED", x.id))
+                    out.add(frozenset(w))
+                return frozenset(out)
+
+            def enter_loop(self, s):
+                pass
+
+            def exit_loop(self, s, S_before, S_body, S_fix):
+                o = frozenset()
+                for x in (S_before, S_body, S_fix):
+                    if x is not None:
+                        o |= x
+                return o
+        # loop targets re-bind (for tr in ...): handled because the loop variable assignment is not an ast.Assign -> clear explicitly
+        cl_ = PC()
+        function_exits(fn, cl_, frozenset({frozenset()}))
+        uniq = {(norm(s), v) for s, v in hits}
+        res.ob(f"D3b:{qn}", not uniq, {"rule": "D3b", "function": qn, "placing_calls": len(calls), "re-placed": sorted(x[0] for x in uniq)})
+        for s, v in hits[:1]:
+            res.add(Finding("D3b", m.rel, qn, s, f"`{v}` already holds a placed (global) model and is placed again: successive path indices would be "
+                            "transformed on top of each other", s.lineno))
+    res.analysed["placing_call_sites"] = n_sites
+    if n_sites < 5:
+        from common import AnalysisError
+        raise AnalysisError(f"D3b: only {n_sites} placing call sites found")
 
 
 def _kw_true(call, name):
